@@ -59,6 +59,8 @@ BASES = [
     ("broken_item", {"phases": ["coverage", "fuzzing"], "max_examples": 2}),
     # a check that fails on a request it derives itself (credentials removed): the failure belongs to THAT request
     ("secured", {"phases": ["fuzzing"], "max_examples": 3, "headers": {"X-API-Key": "user-key-123"}, "checks_override": ["ignored_auth"]}),
+    # the same when the run goes on after a failure: the scenario fails although only the derived request is blamed
+    ("secured", {"phases": ["fuzzing"], "max_examples": 3, "headers": {"X-API-Key": "user-key-123"}, "checks_override": ["ignored_auth"], "continue_on_failure": True}),
 ]
 ALL_CHECKS = ["not_a_server_error", "status_code_conformance", "content_type_conformance", "response_schema_conformance"]
 
@@ -246,6 +248,11 @@ def judge(case, result):
             if "user-key-123" in flat:
                 viols.append(("C05/failure-recorded-with-another-request:ignored_auth", f"the failure is filed under a request that carries the user's key: {flat}"))
                 break
+    # a scenario whose recorder holds a failed check (on the generated request or on one a check derived) is not a success
+    for e, cid, c, inter in failures:
+        if e.get("status") == "SUCCESS":
+            viols.append((f"C05/scenario-succeeded-despite-failed-check:{c['name']}", f"{e.get('label')} finished SUCCESS with a failed `{c['name']}` in its recorder"))
+            break
     if fired:
         point = fired[0]["point"]
         if exit_code == 0:
